@@ -12,8 +12,10 @@ import (
 	"io"
 	"os"
 	"path/filepath"
+	"reflect"
 	"sort"
 	"time"
+	"unsafe"
 
 	"github.com/Tnze/go-mc/save/region"
 
@@ -295,8 +297,9 @@ func (s *Sim) CheckFresh(after string) bool {
 		s.C.Fail("region.reload", "fresh-load", "load-error", "after %s: a fresh Load of the file fails: %v", after, err)
 		return false
 	}
-	if fr.VerifOffsets() != s.R.VerifOffsets() {
-		lo, fo := s.R.VerifOffsets(), fr.VerifOffsets()
+	if lo, ok1 := OffsetsOf(s.R); !ok1 {
+		POffsetsHidden.Hit() // the implementation keeps its location table differently: compared by behaviour only
+	} else if fo, ok2 := OffsetsOf(fr); ok2 && fo != lo {
 		for z := 0; z < 32; z++ {
 			for x := 0; x < 32; x++ {
 				if lo[z][x] != fo[z][x] {
@@ -352,6 +355,35 @@ func SortedKeys(m map[Key][]byte) []Key {
 	return ks
 }
 
+// OffsetsOf reads the region's in-memory location table by reflection. It is
+// an optional observation: when the implementation keeps that table under
+// another name or shape, ok is false and callers fall back to behaviour.
+func OffsetsOf(r *region.Region) (o [32][32]int32, ok bool) {
+	v := reflect.ValueOf(r).Elem().FieldByName("offsets")
+	if !v.IsValid() || v.Type() != reflect.TypeOf(o) || !v.CanAddr() {
+		return o, false
+	}
+	return *(*[32][32]int32)(unsafe.Pointer(v.UnsafeAddr())), true
+}
+
+// headerOffsets decodes the location table from the file image (the
+// independent view; used for probes and the state fingerprint).
+func (s *Sim) headerOffsets() (o [32][32]int32) {
+	img := s.Disk.Img
+	if len(img) < 4096 {
+		return
+	}
+	for z := 0; z < 32; z++ {
+		for x := 0; x < 32; x++ {
+			i := 4 * (z*32 + x)
+			o[z][x] = int32(uint32(img[i])<<24 | uint32(img[i+1])<<16 | uint32(img[i+2])<<8 | uint32(img[i+3]))
+		}
+	}
+	return
+}
+
+var POffsetsHidden = simrt.NewProbe("region.in-memory.offsets.not.observable(compared.by.behaviour)")
+
 func cloneModel(m map[Key][]byte) map[Key][]byte {
 	c := make(map[Key][]byte, len(m))
 	for k, v := range m {
@@ -366,7 +398,7 @@ func (s *Sim) Write(k Key, size int) bool {
 	data := Content(k, s.Seq, size)
 	need := sectorsFor(size)
 	overLimit := need > 255
-	offs := s.R.VerifOffsets()
+	offs := s.headerOffsets()
 	oldSec, oldCnt := int(offs[k.Z][k.X]>>8), int(offs[k.Z][k.X]&0xff)
 	if oldSec != 0 && !overLimit {
 		switch {
@@ -419,7 +451,7 @@ func (s *Sim) Write(k Key, size int) bool {
 	s.Model[k] = data
 	delete(s.Unknown, k)
 	// hole reuse probe: new run starts before the previous end of file
-	no := s.R.VerifOffsets()
+	no := s.headerOffsets()
 	if int(no[k.Z][k.X]>>8) != oldSec && (int(no[k.Z][k.X]>>8)+need)*4096 < len(before) {
 		PHoleReuse.Hit()
 	}
@@ -561,7 +593,7 @@ func (s *Sim) Step(allowBig bool) bool {
 
 // Fingerprint hashes the allocation state (sorted runs and holes).
 func (s *Sim) Fingerprint() uint64 {
-	offs := s.R.VerifOffsets()
+	offs := s.headerOffsets()
 	h := uint64(1469598103934665603)
 	for z := 0; z < 32; z++ {
 		for x := 0; x < 32; x++ {
